@@ -8,10 +8,11 @@ SPECDIR = os.path.join(vf.SPEC, "timer")
 INVS = ["NoEarly", "OneShotOnce", "NoStartAfterCancelTrue", "StoppedRefuses", "NothingAfterStop"]
 
 
-def svc_cfg(ck, name, token=True, clear=True, maxtime=4):
+def svc_cfg(ck, name, token=True, clear=True, maxtime=4, clearheap=True, cycles=0, ids="{1, 2}"):
     p = os.path.join(ck.work, name + ".cfg")
-    vf.write_cfg(p, constants={"Ids": "{1, 2}", "PerIds": "{2}", "Delays": "{0, 1, 2}", "MaxTime": maxtime,
-                               "UseCancelToken": token, "ClearAcceptingOnStop": clear}, invariants=INVS)
+    vf.write_cfg(p, constants={"Ids": ids, "PerIds": "{2}", "Delays": "{0, 1, 2}", "MaxTime": maxtime,
+                               "UseCancelToken": token, "ClearAcceptingOnStop": clear, "ResetClearsHeap": clearheap,
+                               "MaxCycles": cycles}, invariants=INVS)
     return p
 
 
@@ -68,12 +69,35 @@ def run(ck):
     ck.make("drv_timersvc")
     tla_path = os.path.join(SPECDIR, "TimerService.tla")
     jobs = [("svc_code", True, True, 5 if thorough else 4), ("svc_notoken", False, True, 4), ("svc_noclear", True, False, 4)]
+    # the stop -> reset -> start cycle (two one-shot timers, three in the thorough tier, one restart): the code clears the heap; not clearing it must violate NoEarly
+    cyc = [("svc_cycle", True, 5 if thorough else 4), ("svc_cycle_keepheap", False, 4)]
 
     def go(job):
         name, tok, clr, mt = job
         return job, vf.run_tlc(tla_path, svc_cfg(ck, name, tok, clr, mt), tag="C08_" + name, workers=4, coverage=(tok and clr), timeout=1200)
-    with cf.ThreadPoolExecutor(max_workers=3) as ex:
-        res = list(ex.map(go, jobs))
+
+    def goc(job):
+        name, clearheap, mt = job
+        return job, vf.run_tlc(tla_path, svc_cfg(ck, name, True, True, mt, clearheap=clearheap, cycles=1, ids="{1, 3, 4}" if thorough else "{1, 3}"), tag="C08_" + name,
+                               workers=4, coverage=clearheap, timeout=1200)
+    with cf.ThreadPoolExecutor(max_workers=5) as ex:
+        fut = [ex.submit(go, j) for j in jobs] + [ex.submit(goc, j) for j in cyc]
+        allres = [f.result() for f in fut]
+    res = allres[:len(jobs)]
+    for (name, clearheap, mt), r in allres[len(jobs):]:
+        if r.error:
+            raise vf.Infra("TLC failed on TimerService %s: %s" % (name, r.error))
+        ck.states += r.distinct
+        ck.transitions += r.generated
+        if clearheap:
+            for a, (tk, gn) in r.coverage.items():
+                ck.cov["Svc." + a] = ck.cov.get("Svc." + a, 0) + gn
+            ck.note("TimerService.tla with a restart cycle: %s" % r.summary())
+            if r.violated:
+                rp = ck.save_replay("svc_model_cycle", {"tlc.out": r.out})
+                ck.violation("TimerService.tla (restart cycle) violates %s" % r.violated, rp)
+        elif r.violated != "NoEarly":
+            raise vf.Infra("self-test: TimerService.tla with ResetClearsHeap=FALSE should violate NoEarly, got %r" % r.violated)
     for (name, tok, clr, mt), r in res:
         if r.error:
             raise vf.Infra("TLC failed on TimerService %s: %s" % (name, r.error))
@@ -90,7 +114,8 @@ def run(ck):
             want = "NoStartAfterCancelTrue" if not tok else "StoppedRefuses"
             if r.violated != want:
                 raise vf.Infra("self-test: TimerService.tla %s should violate %s, got %r" % (name, want, r.violated))
-    for a in ["Schedule", "SchedulePeriodic", "Cancel", "Tick", "Collect", "Start", "DrainBegin", "DrainTimeout", "Stop", "Joined", "LateSchedule"]:
+    for a in ["Schedule", "SchedulePeriodic", "Cancel", "Tick", "Collect", "Start", "DrainBegin", "DrainTimeout", "Stop", "Joined", "LateSchedule",
+              "Reset", "Restart"]:
         if ck.cov.get("Svc." + a, 0) == 0:
             raise vf.Infra("self-test: TimerService action %s never taken" % a)
     lines = scenarios(ck, thorough)
